@@ -116,6 +116,82 @@ def vocabulary(repo, res):
     res.check(q == "unyt._unit_lookup_table.inv_name_alternatives", "transformer:alias-source", PAR, "aliases come from the generated inverse name table", found=q, rid=r1)
 
 
+SYMPY_CLASSES = {"Number", "Symbol", "Pow", "Mul", "Expr", "Basic", "Rational", "Float", "Integer"}
+
+
+def _python_float_powers(fn, lookup_name):
+    """`a ** b` nodes of fn whose two operands are both inferred to be Python numbers"""
+    sympy_names = set()
+    for n in ast.walk(fn.node):
+        if isinstance(n, ast.Call) and norm(n.func) == "isinstance" and len(n.args) == 2 and isinstance(n.args[0], ast.Name):
+            cls = n.args[1]
+            names = [norm(e) for e in cls.elts] if isinstance(cls, ast.Tuple) else [norm(cls)]
+            if names and all(c.split(".")[-1] in SYMPY_CLASSES for c in names):
+                sympy_names.add(n.args[0].id)
+    defs = {}
+    for n in walk_no_nested(fn.node):
+        if isinstance(n, ast.Assign) and len(n.targets) == 1 and isinstance(n.targets[0], ast.Name):
+            defs.setdefault(n.targets[0].id, []).append(n.value)
+        elif isinstance(n, ast.AugAssign) and isinstance(n.target, ast.Name):
+            defs.setdefault(n.target.id, []).append(ast.BinOp(left=ast.Name(id=n.target.id, ctx=ast.Load()), op=n.op, right=n.value))
+    rows = {fn.name, lookup_name}
+
+    def kind(e, depth=0):
+        if depth > 6:
+            return "?"
+        if isinstance(e, ast.Constant):
+            return "py" if isinstance(e.value, (int, float)) and not isinstance(e.value, bool) else "?"
+        if isinstance(e, ast.Call):
+            f = norm(e.func)
+            if f in ("float", "int"):
+                return "py"
+            if f in rows:
+                return "row"
+            return "?"
+        if isinstance(e, ast.Name):
+            if e.id in sympy_names:
+                return "sympy"
+            if e.id in fn.params:
+                return "?"
+            ks = {kind(v, depth + 1) for v in defs.get(e.id, []) if not (isinstance(v, ast.BinOp) and isinstance(v.left, ast.Name) and v.left.id == e.id)}
+            return ks.pop() if len(ks) == 1 else "?"
+        if isinstance(e, ast.Subscript):
+            b = kind(e.value, depth + 1)
+            if b == "row" and isinstance(e.slice, ast.Constant):
+                return "py" if e.slice.value == 0 else ("sympy" if e.slice.value == 1 else "?")
+            if isinstance(e.value, ast.Attribute) and e.value.attr == "args" and kind(e.value.value, depth + 1) == "sympy":
+                return "sympy"
+            return "?"
+        if isinstance(e, ast.BinOp):
+            a, b = kind(e.left, depth + 1), kind(e.right, depth + 1)
+            if "sympy" in (a, b):
+                return "sympy"
+            return "py" if a == b == "py" else "?"
+        if isinstance(e, ast.UnaryOp):
+            return kind(e.operand, depth + 1)
+        return "?"
+
+    out = []
+    for n in walk_no_nested(fn.node):
+        if isinstance(n, ast.BinOp) and isinstance(n.op, ast.Pow) and kind(n.left) == "py" and kind(n.right) == "py":
+            if isinstance(n.right, ast.Constant) and abs(n.right.value) <= 4:
+                continue  # a small literal exponent cannot leave the range for the table's scales
+            out.append(n)
+    return out
+
+
+def _caught_as_parse_error(fn, node):
+    """node lies in the body of a try of fn with a handler for OverflowError (or a base class) that ends in
+    `raise UnitParseError`"""
+    for t in ast.walk(fn.node):
+        if isinstance(t, ast.Try) and any(node is x for b in t.body for x in ast.walk(b)):
+            for h in t.handlers:
+                names = [] if h.type is None else ([norm(e) for e in h.type.elts] if isinstance(h.type, ast.Tuple) else [norm(h.type)])
+                if (h.type is None or set(names) & {"OverflowError", "ArithmeticError", "Exception", "BaseException"}) and h.body and is_raise_of(h.body[-1], "UnitParseError"):
+                    return True
+    return False
+
+
 def exceptions(repo, res):
     r2 = res.rule("C20-R2", "every failure of the string interface is converted to UnitParseError", floor=7)
     mod = repo.mod(PAR)
@@ -167,6 +243,18 @@ def exceptions(repo, res):
 
     lk = lookup_symbol(repo)
     res.check(is_raise_of(lk.body[-1], "UnitParseError"), "lookup:unknown", lk.where(), "an unknown symbol raises UnitParseError", rid=r2)
+    # exception effects of the walk's arithmetic: a power of two *Python* floats raises OverflowError once the result
+    # leaves the double range (1000.0 ** 400.0), whereas a power with a sympy operand saturates to oo/0.  Kinds are
+    # inferred from the source: float()/number literals are Python numbers, names tested with isinstance against
+    # sympy's classes and their .args are sympy objects, element 0 of what the walk / the table lookup return is a
+    # Python float (their returns say so).  Such a power must sit inside a try that turns the error into
+    # UnitParseError - in the walk or around its call in Unit.__new__.
+    py_pows = _python_float_powers(walk, lk.name)
+    escaping = []
+    for node in py_pows:
+        if not (_caught_as_parse_error(walk, node) or all(_caught_as_parse_error(new, c) for c in ast.walk(new.node) if isinstance(c, ast.Call) and norm(c.func) == walk.name)):
+            escaping.append(norm(node))
+    res.check(not escaping, "walk:python-power", walk.where(py_pows[0]) if py_pows else walk.where(), "the structural walk raises a Python float to a Python float power outside any try: Unit('km**400') lets OverflowError escape instead of succeeding or raising UnitParseError", "a power with a sympy operand (saturates), or an except clause converting the error to UnitParseError", escaping[:3], rid=r2)
 
 
 def printer_parser(repo, res):
@@ -271,4 +359,7 @@ MUTANTS = [
     Mutant("printer-new-special-case", UO, "Unit.__str__", '        if unit_str == "degF":\n            return "°F"', '        if unit_str == "degF":\n            return "℉"', ("C20-R3",)),
     Mutant("degree-rewrite-dropped", PAR, "parse_unyt_expr", '    unit_expr = unit_expr.replace("°", "deg")\n', "", ("C20-R3", "C20-R2")),
     Mutant("pickle-stores-repr", ARR, "unyt_array.__reduce__", "str(self.units), self.units.registry.lut", "self.units.latex_repr, self.units.registry.lut", ("C20-R4",)),
+    Mutant("walk-python-power", UO, "_get_unit_data_from_expr", "conv = float(unit_data[0] ** power)", "conv = unit_data[0] ** float(power)", ("C20-R2",)),
+    Mutant("walk-python-power-guarded", UO, "_get_unit_data_from_expr", "        conv = float(unit_data[0] ** power)\n", "        try:\n            conv = unit_data[0] ** float(power)\n        except OverflowError:\n            raise UnitParseError(f\"Invalid unit expression '{unit_expr}'.\")\n", (), benign=True),
+    Mutant("walk-double-cast", UO, "_get_unit_data_from_expr", "conv = float(unit_data[0] ** power)", "conv = float(float(unit_data[0]) ** power)", (), benign=True),
 ]
